@@ -3,7 +3,7 @@
 //! stall) while N requests are in flight.  Records what every client future returned and the byte
 //! level trace of every pool connection, for the extracted connection model (ocaml/c10/driver).
 //!
-//! case line:  F <nodes> <shards> <n> <j> <fault> <off> <pad> <delay> <idem> <prep> <late> <cancel> <seed>
+//! case line:  F <nodes> <shards> <n> <j> <fault> <off> <pad> <delay> <idem> <prep> <late> <cancel> <aux> <seed>
 //!   fault: none | fin | rst | ver<hexbyte> | unsol | stall | garb<hexbytes>
 //!          | slow (no fault: requests from the j-th on are answered after 80 ms)
 //!          | ccfin | ccrst (the CONTROL connection is cut while the requests are in flight)
@@ -17,9 +17,17 @@
 //!            stream: that request fails, the connection lives)
 //!          | dup (the reply is sent twice: the second copy is a frame nobody waits for)
 //!          | short (the reply's length field announces <off%8+1> bytes less than follow: misframing)
+//!          | corr (byte <off> of the reply frame's header -- version, flags, opcode, frame length --
+//!            is XORed with a mask: in-frame corruption; the other replies are normal)
+//!          | 2x<kind>: the whole scenario twice, the second fault hits the re-established connection
+//!            (markers n+1..2n in the second phase)
+//!   aux: <aux> requests of OTHER kinds (BATCH, PREPARE, paged iterator, USE) are in flight as well; for them
+//!        only completion is recorded (aux=aok|aerr|hang,..)
 //!   cancel: the last <cancel> client futures are dropped 3 ms after the start (orphaned stream ids)
 //! observation (after '|'):
 //!   res=<r1>,..,<rn>   r = ok:<marker>:<padlen>:<padok> | err:<class> | hang | cancelled
+//!   pxb=<hex of the constant body prefix>  pool=<a|g|b><node>.<conn>,.. (global order: handshake done,
+//!   request frame arrived, connection broke)  aux=..
 //!   fu=ok|err|hang  ph=<probe requests of burst rounds that hung>  tmax=<ms>  bound=<ms>  px=<body prefix length>
 //!   conns=<conn>;<conn>..   conn = <node>.<connid>:<ev>,<ev>..
 //!     ev = i<stream>.<rid> request frame (rid = marker, or -k for handshake frames)
@@ -57,19 +65,20 @@ struct Case {
     prep: bool,
     late: u8,
     cancel: usize,
+    aux: usize,
     seed: u64,
 }
 
 impl Case {
     fn line(&self) -> String {
         format!(
-            "F {} {} {} {} {} {} {} {} {} {} {} {} {}",
-            self.nodes, self.shards, self.n, self.j, self.fault, self.off, self.pad, self.delay, self.idem as u8, self.prep as u8, self.late, self.cancel, self.seed
+            "F {} {} {} {} {} {} {} {} {} {} {} {} {} {}",
+            self.nodes, self.shards, self.n, self.j, self.fault, self.off, self.pad, self.delay, self.idem as u8, self.prep as u8, self.late, self.cancel, self.aux, self.seed
         )
     }
     fn parse(s: &str) -> Option<Case> {
         let f: Vec<&str> = s.split_whitespace().collect();
-        if f.len() != 14 || f[0] != "F" {
+        if f.len() != 15 || f[0] != "F" {
             return None;
         }
         Some(Case {
@@ -85,7 +94,8 @@ impl Case {
             prep: f[10] == "1",
             late: f[11].parse().ok()?,
             cancel: f[12].parse().ok()?,
-            seed: f[13].parse().ok()?,
+            aux: f[13].parse().ok()?,
+            seed: f[14].parse().ok()?,
         })
     }
 }
@@ -250,6 +260,12 @@ async fn burst_rounds(cluster: &MockCluster, session: &Arc<Session>, c: &Case, p
 }
 
 async fn run_case(c: Case) -> String {
+    let twice = c.fault.starts_with("2x");
+    let mut c = c;
+    if twice {
+        c.fault = c.fault[2..].to_string();
+    }
+    let c = c;
     let table = TableDef::new("t", &[("m", CqlType::BigInt)], &[], &[("c", CqlType::Blob)]);
     let mut spec = ClusterSpec::uniform("c10", &[("dc1", c.nodes)], 1, 4, c.shards).with_keyspace(KeyspaceDef::simple("ks", 1).with_table(table.clone()));
     spec.options.tablets_ext = false;
@@ -278,7 +294,12 @@ async fn run_case(c: Case) -> String {
     // wait for the pools: per node max(1, shards) connections + 1 control connection
     let want = c.nodes * (c.shards.max(1) as usize) + 1;
     let t = Instant::now();
-    while cluster.connections(None).len() < want && t.elapsed() < Duration::from_secs(10) {
+    // (handshakes completed, not just TCP connections accepted: a pool connection that finishes its
+    // handshake later would look like a replacement in the pool-level event sequence)
+    while (cluster.connections(None).len() < want
+        || cluster.trace_snapshot().iter().filter(|e| e.is_in(op::STARTUP)).count() < want)
+        && t.elapsed() < Duration::from_secs(10)
+    {
         tokio::time::sleep(Duration::from_millis(5)).await;
     }
     let select = "SELECT c FROM ks.t WHERE m = ?";
@@ -307,6 +328,22 @@ async fn run_case(c: Case) -> String {
             let marker = marker_of(ctx.text.as_deref(), ctx.params.as_ref(), c.prep)?;
             if marker == FOLLOWUP || ctx.node != 0 {
                 return Some(vec![echo(&c, marker)]);
+            }
+            if c.fault == "corr" {
+                let mut st = hs.lock().unwrap();
+                let k = st.arrivals;
+                st.arrivals += 1;
+                if k != c.j {
+                    return Some(vec![echo(&c, marker)]);
+                }
+                let mut b = echo_frame(&c, marker, ctx.stream).encode();
+                // the header without the stream id: version, flags, opcode, the four length bytes.  The body
+                // is left alone: a server may legitimately send other metadata / cells, and the client
+                // hands over what the bytes say
+                let allowed: Vec<usize> = vec![0, 1, 4, 5, 6, 7, 8];
+                let at = allowed[c.off % allowed.len()];
+                b[at] ^= 1 + (c.seed % 255) as u8;
+                return Some(vec![Action::Delay(c.delay), Action::Garbage(b)]);
             }
             let mut st = hs.lock().unwrap();
             if let Some(fc) = st.fault_conn {
@@ -391,14 +428,61 @@ async fn run_case(c: Case) -> String {
         tmax = t;
         probe_hangs = ph;
     }
+    let mut aux_res: Vec<String> = Vec::new();
+    let mut fu = "ok".to_string();
+    for phase in 0..(if twice { 2usize } else { 1 }) {
+    if phase == 1 {
+        // second phase: the fault is armed again and hits the re-established connection
+        let mut st = hs.lock().unwrap();
+        st.arrivals = 0;
+        st.fault_conn = None;
+    }
+    let tp = Instant::now();
     let mut handles = Vec::new();
     for i in 0..(if c.fault.starts_with("burst") { 0 } else { c.n }) {
         let s = session.clone();
         let cc = c.clone();
         let p = prepared.clone();
+        let marker = (phase * c.n + i + 1) as i64;
         handles.push(tokio::spawn(async move {
-            let r = one_request(&s, &cc, p.as_ref(), (i + 1) as i64).await;
-            (r, t0.elapsed().as_millis() as u64)
+            let r = one_request(&s, &cc, p.as_ref(), marker).await;
+            (r, tp.elapsed().as_millis() as u64)
+        }));
+    }
+    // requests of other kinds in flight at the fault: only their completion is recorded
+    let mut aux_handles = Vec::new();
+    for a in 0..c.aux {
+        let s = session.clone();
+        let kind = (a + c.seed as usize) % 4;
+        let am = 5000 + (phase * c.aux + a) as i64;
+        aux_handles.push(tokio::spawn(async move {
+            let ok = match kind {
+                0 => {
+                    let mut b = scylla::statement::batch::Batch::default();
+                    b.append_statement(format!("INSERT INTO ks.t (m, c) VALUES ({}, 0x00)", am).as_str());
+                    b.append_statement("INSERT INTO ks.t (m, c) VALUES (0, 0x01)");
+                    s.batch(&b, ((), ())).await.is_ok()
+                }
+                1 => s.prepare(format!("SELECT c FROM ks.t WHERE m = {} AND c = ?", am)).await.is_ok(),
+                2 => match s.query_iter(format!("SELECT c FROM ks.t WHERE m = {}", am), ()).await {
+                    Ok(it) => {
+                        use futures::StreamExt;
+                        match it.rows_stream::<(Vec<u8>,)>() {
+                            Ok(mut st) => {
+                                let mut ok = true;
+                                while let Some(r) = st.next().await {
+                                    ok &= r.is_ok();
+                                }
+                                ok
+                            }
+                            Err(_) => false,
+                        }
+                    }
+                    Err(_) => false,
+                },
+                _ => s.use_keyspace("ks", false).await.is_ok(),
+            };
+            if ok { "aok" } else { "aerr" }
         }));
     }
     if c.fault.starts_with("cc") {
@@ -417,8 +501,20 @@ async fn run_case(c: Case) -> String {
             h.abort();
         }
     }
+    for h in aux_handles {
+        let left = Duration::from_millis(BOUND_MS).saturating_sub(tp.elapsed());
+        let abort = h.abort_handle();
+        match tokio::time::timeout(left, h).await {
+            Ok(Ok(r)) => aux_res.push(r.into()),
+            Ok(Err(_)) => aux_res.push("aerr".into()),
+            Err(_) => {
+                abort.abort();
+                aux_res.push("hang".into());
+            }
+        }
+    }
     for h in handles {
-        let left = Duration::from_millis(BOUND_MS).saturating_sub(t0.elapsed());
+        let left = Duration::from_millis(BOUND_MS).saturating_sub(tp.elapsed());
         let abort = h.abort_handle();
         match tokio::time::timeout(left, h).await {
             Ok(Ok((r, t))) => {
@@ -436,21 +532,24 @@ async fn run_case(c: Case) -> String {
     }
     // ---- the session must keep working ----------------------------------------------------
     let tf = Instant::now();
-    let mut fu = "err".to_string();
+    let mut fu_phase = "err".to_string();
     while tf.elapsed() < Duration::from_millis(BOUND_MS) {
         // a follow-up request that does not complete is a hang like any other (no silent retry)
         match tokio::time::timeout(Duration::from_millis(BOUND_MS), one_request(&session, &c, prepared.as_ref(), FOLLOWUP)).await {
             Ok(r) if r.starts_with(&format!("ok:{}:", FOLLOWUP)) => {
-                fu = "ok".into();
+                fu_phase = "ok".into();
                 break;
             }
             Ok(_) => {}
             Err(_) => {
-                fu = "hang".into();
+                fu_phase = "hang".into();
                 break;
             }
         }
         tokio::time::sleep(Duration::from_millis(15)).await;
+    }
+    if fu_phase != "ok" {
+        fu = fu_phase;
     }
     // let the faulted connection's close reach the mock (needed to attribute a keepalive timeout)
     let fault_conn = hs.lock().unwrap().fault_conn;
@@ -460,6 +559,11 @@ async fn run_case(c: Case) -> String {
             tokio::time::sleep(Duration::from_millis(5)).await;
         }
     }
+    if fu != "ok" {
+        break;
+    }
+    } // phases
+    let _ = t0;
     let trace = cluster.drain_trace();
     // the mock resets every connection first: no TIME_WAIT sockets are left behind
     cluster.shutdown();
@@ -471,6 +575,15 @@ async fn run_case(c: Case) -> String {
         types::body_result_rows(&r, false).len() - 4 - cell_for(&c, 1).len()
     };
     let control: std::collections::HashSet<u64> = trace.iter().filter(|e| e.is_in(op::REGISTER)).map(|e| e.conn_id).collect();
+    let pxb = {
+        let Action::Rows(r) = echo(&c, 1) else { unreachable!() };
+        hex_bytes(&types::body_result_rows(&r, false)[..px])
+    };
+    let nmarkers = res.len() as i64;
+    // pool-level events in the mock's global order: a = handshake done, g = a request frame arrived,
+    // b = the connection broke (mock cut / stall / closed by the client)
+    let mut pool: Vec<String> = Vec::new();
+    let mut broke: std::collections::HashSet<u64> = std::collections::HashSet::new();
     let mut conns: Vec<(usize, u64, Vec<String>, bool, i64)> = Vec::new(); // node, id, events, started, next synthetic rid
     for e in &trace {
         if control.contains(&e.conn_id) {
@@ -495,10 +608,13 @@ async fn run_case(c: Case) -> String {
                 let ka = *opcode == op::OPTIONS && cn.3;
                 if *opcode == op::STARTUP {
                     cn.3 = true;
+                    pool.push(format!("a{}.{}", e.node, e.conn_id));
+                } else if matches!(*opcode, op::QUERY | op::EXECUTE | op::BATCH | op::PREPARE) {
+                    pool.push(format!("g{}.{}", e.node, e.conn_id));
                 }
                 let rid = match marker {
                     // probes / follow-ups may be repeated: they get synthetic ids like handshake frames
-                    Some(m) if m != FOLLOWUP && !(c.prep && *opcode == op::QUERY) => m,
+                    Some(m) if m >= 1 && m <= nmarkers && !(c.prep && *opcode == op::QUERY) => m,
                     _ => {
                         let r = cn.4;
                         cn.4 -= 1;
@@ -514,8 +630,13 @@ async fn run_case(c: Case) -> String {
             }
             Ev::RawOut { bytes } => cn.2.push(format!("o{}", hex_bytes(bytes))),
             Ev::RawFillOut { .. } => {}
+            // (a stall is not a break yet: the client notices at its keepalive timeout and closes -> X)
             Ev::Stalled => cn.2.push(format!("S@{}", (e.t_ns.saturating_sub(t0_ns)) / 1_000_000)),
-            Ev::Close { by } => cn.2.push(format!(
+            Ev::Close { by } => {
+                if broke.insert(e.conn_id) {
+                    pool.push(format!("b{}.{}", e.node, e.conn_id));
+                }
+                cn.2.push(format!(
                 "{}@{}",
                 match by {
                     CloseBy::Client => "X",
@@ -524,18 +645,22 @@ async fn run_case(c: Case) -> String {
                     CloseBy::Shutdown => "X",
                 },
                 (e.t_ns.saturating_sub(t0_ns)) / 1_000_000
-            )),
+                ))
+            }
         }
     }
     let conns_s: Vec<String> = conns.iter().map(|c| format!("{}.{}:{}", c.0, c.1, if c.2.is_empty() { "-".to_string() } else { c.2.join(",") })).collect();
     format!(
-        "res={} fu={} ph={} tmax={} bound={} px={} conns={}",
+        "res={} fu={} ph={} aux={} tmax={} bound={} px={} pxb={} pool={} conns={}",
         res.join(","),
         fu,
         probe_hangs,
+        if aux_res.is_empty() { "-".to_string() } else { aux_res.join(",") },
         tmax,
         BOUND_MS,
         px,
+        pxb,
+        if pool.is_empty() { "-".to_string() } else { pool.join(",") },
         if conns_s.is_empty() { "-".to_string() } else { conns_s.join(";") }
     )
 }
@@ -556,6 +681,7 @@ fn gen_cases(seed: u64, n: u64, thorough: bool) -> Vec<Case> {
         prep: false,
         late: 0,
         cancel: 0,
+        aux: 0,
         seed: r.below(1 << 30),
     };
     // (a) every cut offset of a small script: header bytes 0..8, every body offset, between frames
@@ -575,6 +701,39 @@ fn gen_cases(seed: u64, n: u64, thorough: bool) -> Vec<Case> {
         }
     }
     // (b) every fault kind on the small script, both request kinds
+    // (b'') in-frame corruption at every corruptible offset, two masks; second fault on the re-established
+    // connection; other request kinds in flight
+    for off in 0..7usize {
+        for k in 0..3u64 {
+            let mut c = base(&mut r);
+            c.fault = "corr".into();
+            c.off = off;
+            c.pad = 117;
+            c.seed = c.seed / 4 * 4 + k * 85;
+            c.prep = off % 2 == 0;
+            v.push(c);
+        }
+    }
+    for fault in ["2xfin", "2xrst", "2xunsol", "2xstall", "2xver85", "2xdup"] {
+        for prep in [false, true] {
+            let mut c = base(&mut r);
+            c.fault = fault.into();
+            c.off = 5 + 7 * (prep as usize);
+            c.prep = prep;
+            c.n = 4;
+            v.push(c);
+        }
+    }
+    for fault in ["fin", "rst", "stall", "unsol", "garb840000010800ffffff0001", "none"] {
+        for aux in [2usize, 4] {
+            let mut c = base(&mut r);
+            c.fault = fault.into();
+            c.off = 11;
+            c.aux = aux;
+            c.n = 4;
+            v.push(c);
+        }
+    }
     for fault in ["none", "slow", "ccfin", "ccrst", "split", "neg", "flagop", "flagcomp", "dup", "short", "unsol", "stall", "ver85", "ver04", "ver83", "ver05", "garb00000000000000000000", "garb8400000177000000", "garb84", "garb840000010800ffffff0001", "garbffffffffffffffffffffffff"] {
         for prep in [false, true] {
             let mut c = base(&mut r);
@@ -625,7 +784,10 @@ fn gen_cases(seed: u64, n: u64, thorough: bool) -> Vec<Case> {
             _ => r.below(maxoff as u64) as usize,
         };
         c.cancel = if r.chance(1, 5) { r.range(1, c.n as u64) as usize } else { 0 };
-        c.fault = match r.below(22) {
+        c.aux = if r.chance(1, 6) { r.range(1, 4) as usize } else { 0 };
+        c.fault = match r.below(25) {
+            22 => "corr".into(),
+            23 | 24 => format!("2x{}", *r.pick(&["fin", "rst", "unsol", "stall", "ver85", "dup", "short"])),
             18 => "split".into(),
             19 => (*r.pick(&["neg", "flagop", "flagcomp"])).into(),
             20 => "dup".into(),
